@@ -1,7 +1,7 @@
 """C11 — primitive distance functions: global minimum (structural clauses)."""
 from . import scopes
 from ..core.report import DOMAIN_D
-from ..rules import partition, features, degree, roles, mirror, runmin, unpack, sides, onsegment, ericson, misc2, siblings
+from ..rules import generic2, partition, features, degree, roles, mirror, runmin, unpack, sides, onsegment, ericson, misc2, siblings
 
 
 def run(idx, rep, tier):
@@ -30,6 +30,7 @@ def run(idx, rep, tier):
     ericson.r_ericson(idx, rep)
     partition.r_isolated(idx, rep, [m.name for m in idx.lib_modules() if m.name.startswith('distance3d.distance')], floor=1)
     misc2.r_dupcond(idx, rep, [m.name for m in idx.lib_modules()], floor=3)
+    generic2.r_axispair(idx, rep, [m.name for m in idx.lib_modules()], floor=0)      # one site today; a vectorised test has no component pairs to mis-pair
     siblings.r_segsibling(idx, rep)
     misc2.r_parallelsign(idx, rep, [x.name for x in idx.lib_modules() if x.name.startswith("distance3d.distance")])
     degree.r_tolunit(idx, rep, [x.name for x in idx.lib_modules() if x.name.startswith("distance3d.distance")], floor=8)
